@@ -420,7 +420,7 @@ class Scenario(object):
         if k == 'new_broker':
             bad = op[1] not in ('USD', 'GBP', 'EUR') or op[2] < 0
             return {'ValueError'} if bad else {'ok'}
-        if k == 'quote':
+        if k in ('quote', 'swap_book'):
             return {'ok'}
         if k in ('update', 'exec'):
             t = ts(op[1]) if k == 'update' else ts(op[3])
@@ -512,6 +512,15 @@ class Scenario(object):
             return SimulatedBroker(self.t, self.exchange, self.book,
                                    base_currency=op[1], initial_funds=op[2])
         if k == 'quote':
+            if len(op) > 2 and op[2] == 'swap' and b is not None:
+                # the broker is given ANOTHER data handler object (a revised feed) carrying the current quotes plus the
+                # new ones: broker.data_handler is a plain public attribute
+                nb = QuoteBook()
+                nb.q = dict(self.book.q)
+                nb.now = self.book.now
+                self.book = nb
+                b.data_handler = nb
+                self.acc.count('data_handler_objects_swapped_on_a_live_broker')
             for a, (bid, ask) in op[1].items():
                 self.book.set(a, bid, ask)
             return None
@@ -532,7 +541,14 @@ class Scenario(object):
         if k == 'pf_wd':
             return p.withdraw_funds(ts(op[2]), op[3])
         if k == 'pf_txn':
-            return p.transact_asset(Transaction(op[3], op[4], ts(op[2]), op[5], op[7] if len(op) > 7 else 'pf', commission=op[6] if len(op) > 6 else 0.0))
+            comm_ = op[6] if len(op) > 6 else 0.0
+            if (len(op[3]) + int(abs(op[4]))) % 3 == 0:
+                # the transaction object is created first and completed afterwards (commission known once the
+                # consideration is): plain public attributes
+                txn_ = Transaction(op[3], op[4], ts(op[2]), op[5], op[7] if len(op) > 7 else 'pf', commission=0.0)
+                txn_.commission = comm_
+                return p.transact_asset(txn_)
+            return p.transact_asset(Transaction(op[3], op[4], ts(op[2]), op[5], op[7] if len(op) > 7 else 'pf', commission=comm_))
         if k == 'pf_mark':
             return p.update_market_value_of_asset(op[2], op[3], ts(op[4]))
         raise ValueError(op)
@@ -1763,7 +1779,10 @@ class Gen(object):
             self.tmax = next_time(rng, self.tmax)
             return ['update', str(self.tmax)]
         if r < 0.93:
-            return ['quote', self.quotes(rng.randint(1, len(assets)))]
+            q_ = ['quote', self.quotes(rng.randint(1, len(assets)))]
+            if rng.random() < 0.15:
+                q_.append('swap')
+            return q_
         self.tmax = next_time(rng, self.tmax)
         orders = []
         for _ in range(rng.randint(1, 3)):
@@ -1894,7 +1913,7 @@ class Gen(object):
             neg = [-abs(old[0]), -abs(old[1])] if rng.random() < 0.7 else [-abs(old[1]) * 3, abs(old[0])]
             self.queue.append(['update', str(self.tmax)])
             self.queue.append(['quote', {a: old}])
-            return ['quote', {a: neg}]
+            return ['quote', {a: neg}] + (['swap'] if rng.random() < 0.4 else [])
         mp = sc.model.ports[pid]
         clock = clocks[pid]
         earlier = str(clock - pd.Timedelta(rng.choice([pd.Timedelta(microseconds=1), pd.Timedelta(hours=3),
@@ -2021,7 +2040,10 @@ def run_case(case, acc, prop, active=None):
     for key, fn in (('aborted_update', aborted_update_case), ('late_quote', late_quote_case), ('negative_mark', negative_mark_case)):
         if key in case:
             try:
-                fn(case[key], acc)
+                if key == 'aborted_update':
+                    fn(case[key], acc, prop=case.get('prop', 'C05'))
+                else:
+                    fn(case[key], acc)
             except Violation as v:
                 acc.violation(v, case)
             return None
@@ -2108,11 +2130,17 @@ def symmetry_pair(rng, acc, replay_of=None):
     c = rng.choice([0.001, 0.005, 0.05, 0.3, round(rng.random(), 6) + 1e-6])
     x = rng.choice([0.0, 0.005, round(rng.random(), 6)])
     model = PercentFeeModel(commission_pct=c, tax_pct=x)
-    if rng.random() < 0.5:
+    how = rng.random()
+    if how < 0.4:
         # every argument by position, in the documented order (account id, base currency, funds, fee model)
         broker = SimulatedBroker(t, SimulatedExchange(t), book, 'acct', 'USD', 1e9, model)
-    else:
+    elif how < 0.7:
         broker = SimulatedBroker(t, SimulatedExchange(t), book, initial_funds=1e9, fee_model=model)
+    else:
+        # built with the default (zero-fee) model, configured afterwards: broker.fee_model is a plain public attribute
+        broker = SimulatedBroker(t, SimulatedExchange(t), book, initial_funds=1e9)
+        broker.fee_model = model
+        acc.count('C05:pairs_on_a_broker_given_its_fee_model_after_construction')
     broker.create_portfolio('P')
     broker.subscribe_funds_to_portfolio('P', 1e9)
     if rng.random() < 0.35 and price > 2 * spread:
@@ -2241,7 +2269,7 @@ def aborted_update_script(rng):
             'closed_between': rng.random() < 0.5}
 
 
-def aborted_update_case(sp, acc):
+def aborted_update_case(sp, acc, prop='C05'):
     from qstrader.broker.simulated_broker import SimulatedBroker
     from qstrader.exchange.simulated_exchange import SimulatedExchange
     from qstrader.broker.fee_model.percent_fee_model import PercentFeeModel
@@ -2254,11 +2282,26 @@ def aborted_update_case(sp, acc):
     b.create_portfolio('p')
     b.subscribe_funds_to_portfolio('p', 2e7)
     b.submit_order('p', Order(t1, 'EQ:X', sp['first']))
+    if prop == 'C02':
+        b.update(t1)                                   # EQ:X is held (and has been marked) BEFORE the update that aborts
+        t1 = t1 + pd.Timedelta(minutes=1)
+        b.get_portfolio_total_market_value('p')        # ... and its value has been asked for
+        b.get_portfolio_total_equity('p')
+        qm = (sp['q1'][0] * 1.5 + 0.25, sp['q1'][1] * 1.5 + 0.5)
+        book.q['EQ:X'] = qm
     b.submit_order('p', Order(t1, 'EQ:NOPRICE', 10))
     try:
         b.update(t1)
     except ValueError:
         acc.count('C05:updates_aborted_by_an_unpriced_order')
+        if prop == 'C02':
+            # the aborted update re-marked the holdings before it failed on the order: the valuation read now says so
+            want_ = (F(qm[0]) + F(qm[1])) / 2 * sp['first']
+            got_ = b.get_portfolio_total_market_value('p')
+            if not close(got_, want_, abs(want_) + 1, rel=1e-12):
+                raise Violation('C02', 'aborted-update/market-value-right-after', 'right after an update that re-marked EQ:X at %s and then '
+                                'failed on an unpriced order, the market value of %d EQ:X reads %r; quantity x latest price = %r'
+                                % (qm, sp['first'], got_, float(want_)), sp)
     if sp['closed_between']:
         b.update(t1.normalize() + pd.Timedelta(hours=22))       # outside exchange hours: nothing executes
         if t2 <= b.current_dt:
@@ -2268,8 +2311,24 @@ def aborted_update_case(sp, acc):
     book.q['EQ:X'] = tuple(sp['q2'])
     cash0 = b.get_portfolio_cash_balance('p')
     n0 = len(b.portfolios['p'].history)
-    b.submit_order('p', Order(b.current_dt, 'EQ:X', sp['second']))
+    if prop != 'C02':
+        b.submit_order('p', Order(b.current_dt, 'EQ:X', sp['second']))
     b.update(t2)
+    if prop == 'C02':
+        # valuation after the update that FOLLOWS the aborted one: every holding at the quotes of that update
+        net = sp['first']
+        mid2 = (F(sp['q2'][0]) + F(sp['q2'][1])) / 2          # nothing is traded at this update: the holding is marked at the mid
+        want_mv = mid2 * net
+        got_mv = b.get_portfolio_total_market_value('p')
+        if not close(got_mv, want_mv, abs(want_mv) + 1, rel=1e-12):
+            raise Violation('C02', 'aborted-update/market-value', 'after an update aborted by an unpriced order and a further update at %s '
+                            '(quote %s) the market value of %d EQ:X is %r, quantity x latest price = %r (the aborted update saw %s)'
+                            % (sp['t2'], sp['q2'], net, got_mv, float(want_mv), sp['q1']), sp)
+        eq = b.get_portfolio_total_equity('p')
+        if not close(eq, F(b.get_portfolio_cash_balance('p')) + want_mv, abs(want_mv) + abs(F(b.get_portfolio_cash_balance('p'))), rel=1e-12):
+            raise Violation('C02', 'aborted-update/equity', 'equity %r is not cash + market value after an aborted update' % eq, sp)
+        acc.count('C02:valuations_after_an_aborted_update')
+        return
     hist = b.portfolios['p'].history[n0:]
     if len(hist) != 1:
         raise Violation('C05', 'aborted-update/fill-count', '%d history entries for one order after an aborted update' % len(hist), sp)
@@ -2386,6 +2445,13 @@ def shard_broker(spec, acc, prop, faults):
             break
         nops = rng.choice([10, 20, 40, 40, 80, 120, 200])
         generate_and_run(rng, acc, prop, faults, nops)
+    if prop == 'C02':
+        for i in range(spec['cases']):
+            sp = aborted_update_script(rng)
+            try:
+                aborted_update_case(sp, acc, prop='C02')
+            except Violation as v:
+                acc.violation(v, {'aborted_update': sp, 'prop': 'C02'})
     if prop == 'C15':
         for i in range(max(4, spec['cases'] // 3)):
             sp = negative_mark_script(rng)
